@@ -291,6 +291,8 @@ def eval_selector(f, subject, value, enum=None):
     """truth of formula f when the expression rendered `subject` has the integer `value`: atoms `(== subject c)` are decided
        (c a number or an enumerator of `enum`: name -> value); any other atom makes the result None"""
     def dec(a):
+        if a == subject:
+            return value != 0          # the canonical form of `subject != 0`
         ops = _operands(a)
         if not ops:
             return None
